@@ -54,7 +54,7 @@ CONSTANTS
   MaxHist,     \* bound on the history length (finitises the model)
   Dev          \* enabled deviations, subset of AllDevs
 
-AllDevs == {"warnNesting", "aliasSuffix", "aliasReserved", "blank2", "docDirective", "staleFile"}
+AllDevs == {"warnNesting", "aliasSuffix", "aliasReserved", "blank2", "docDirective", "staleFile", "rootLeftover"}
 
 VARIABLES
   schema,   \* [Pairs -> Files \cup {"none"}] : schema file that declares the field
@@ -80,6 +80,8 @@ NoMeth   == [body |-> "none", doc |-> "none", named |-> FALSE, uses |-> {}]
 Default  == [body |-> "gen",  doc |-> "gen",  named |-> FALSE, uses |-> {}]
 HTok(h)    == [k |-> "h", id |-> h, body |-> "-",    named |-> FALSE,   uses |-> {}]
 MTok(p, m) == [k |-> "m", id |-> p, body |-> m.body, named |-> m.named, uses |-> m.uses]
+\* the template's own `type Resolver struct{}` of the single-file layout (deviation "rootLeftover")
+RootTok    == [k |-> "r", id |-> "Resolver", body |-> "-", named |-> FALSE, uses |-> {}]
 HasCmt(t)  == (t.k = "h" /\ t.id \in CmtToks) \/ (t.k = "m" /\ t.body \in CmtToks)
 
 Has(f, p)   == meth[f][p].body # "none"
@@ -216,6 +218,11 @@ NewImports(f, D) ==
   IF f \notin RegenOf(D) THEN imports[f]
   ELSE {i \in imports[f] : i \in NeverPruned \/ \E p \in Pairs : i \in NewMeth(f, p, D).uses} \ DroppedImports(f, D)
 
+\* Deviation "rootLeftover" (pinned tree, single-file layout): the existing `type Resolver struct{}` is not
+\* marked as copied, so every run on an existing resolver.go puts it into the WARNING block (and emits a
+\* fresh one): the first re-run of a freshly generated project changes the file.
+WarnOf(f, D) == Leftover(f) \cup (IF "rootLeftover" \in D /\ cfg.rl = "single" /\ f = "resolver" THEN {RootTok} ELSE {})
+
 Broken(D) == "warnNesting" \in D /\ \E f \in RegenOf(D) : \E t \in Leftover(f) : HasCmt(t)
 
 \* deviations that change the outcome of this run
@@ -224,7 +231,11 @@ Fired(D) ==
      \/ d = "warnNesting" /\ Broken(D)
      \/ d \in {"aliasSuffix", "aliasReserved", "blank2"} /\ \E f \in RFiles : NewImports(f, D) # NewImports(f, D \ {d})
      \/ d = "docDirective" /\ \E f \in RFiles, p \in Pairs : NewMeth(f, p, D) # NewMeth(f, p, D \ {"docDirective"})
-     \/ d = "staleFile" /\ RegenOf(D) # RegenOf({})}
+     \/ d = "staleFile" /\ RegenOf(D) # RegenOf({})
+     \/ d = "rootLeftover" /\ cfg.rl = "single"}
+
+\* deviations after which the statements no longer demand that the package compiles
+CompBreaking == {"warnNesting", "aliasSuffix", "aliasReserved", "blank2"}
 
 AddsOnly == dirty # "other" /\ OnlyMethods
 
@@ -234,9 +245,9 @@ GenResult(D) ==
   ELSE [meth    |-> [f \in RFiles |-> [p \in Pairs |-> NewMeth(f, p, D)]],
         helpers |-> [f \in RFiles |-> IF f \in RegenOf(D) THEN {} ELSE helpers[f]],
         imports |-> [f \in RFiles |-> NewImports(f, D)],
-        warn    |-> [f \in RFiles |-> IF f \in RegenOf(D) THEN Leftover(f) ELSE warn[f]],
+        warn    |-> [f \in RFiles |-> IF f \in RegenOf(D) THEN WarnOf(f, D) ELSE warn[f]],
         ok      |-> TRUE,
-        comp    |-> IF comp = "yes" /\ AddsOnly /\ Fired(D) = {} THEN "yes" ELSE "unk"]
+        comp    |-> IF comp = "yes" /\ AddsOnly /\ Fired(D) \cap CompBreaking = {} THEN "yes" ELSE "unk"]
 
 Generate(seed, dir, procs) ==
   /\ Step
